@@ -79,6 +79,8 @@ class Describer:
         if isinstance(e, ast.Attribute) and e.attr == 'lastrowid':
             # the rowid of the row the importer has just inserted (the lexicon row in _insert_lexicon)
             return 'lexid'
+        if isinstance(e, ast.Call) and isinstance(e.func, ast.Name) and e.func.id == 'cast' and len(e.args) == 2:
+            return self.describe(e.args[1], at, depth + 1, row)      # typing.cast is the identity
         if isinstance(e, ast.Call) and isinstance(e.func, ast.Name) and depth < 14:
             inl = self._inliner()
             if e.func.id in inl.simple:
@@ -215,6 +217,12 @@ class Describer:
             t, a, b = e.test, e.body, e.orelse
             while isinstance(t, ast.UnaryOp) and isinstance(t.op, ast.Not):
                 t, a, b = t.operand, b, a
+            if isinstance(t, ast.Compare) and len(t.ops) == 1 and isinstance(t.ops[0], (ast.Eq, ast.Is)):
+                # `x if a == b else y` is `y if a != b else x`: one spelling
+                t = ast.copy_location(ast.Compare(left=t.left, ops=[ast.NotEq() if isinstance(t.ops[0], ast.Eq) else ast.IsNot()],
+                                                  comparators=t.comparators), t)
+                t._parent = getattr(e, '_parent', None)
+                a, b = b, a
             return (f'({self.describe(a, at, depth + 1, row)} if {self._cond(t, at, depth, row)} '
                     f'else {self.describe(b, at, depth + 1, row)})')
         if isinstance(e, ast.BoolOp):
@@ -237,6 +245,12 @@ class Describer:
         return f'expr:{norm(e)}'
 
     def _cond(self, t, at, depth, row):
+        if isinstance(t, ast.UnaryOp) and isinstance(t.op, ast.Not) and isinstance(t.operand, (ast.BoolOp, ast.Compare, ast.UnaryOp)):
+            # negation normal form: not (a or b) = not a and not b; not (x != y) = x == y
+            from .effects import neg_ast
+            t2 = neg_ast(t.operand)
+            if not (isinstance(t2, ast.UnaryOp) and isinstance(t2.op, ast.Not) and t2.operand is t.operand):
+                return self._cond(t2, at, depth, row)
         if isinstance(t, ast.Compare) and len(t.ops) == 1:
             op = {ast.Eq: '==', ast.NotEq: '!=', ast.Is: 'is', ast.IsNot: 'is not', ast.In: 'in', ast.NotIn: 'not in'}.get(type(t.ops[0]), '?')
             return f'{self.describe(t.left, at, depth + 1, row)} {op} {self.describe(t.comparators[0], at, depth + 1, row)}'
